@@ -128,7 +128,9 @@ class Join(BinaryOperation):
             operation = self
         # A join identity operand can only be dropped if there is no predicate
         # that still has to filter the other operand's rows.
-        if self.predicate.as_trivial() is True:
+        # (nor if the operands are in different engines, which _finish_apply
+        # has to report).
+        if self.predicate.as_trivial() is True and lhs.engine == rhs.engine:
             if lhs.is_join_identity:
                 return IgnoreOne(True)
             if rhs.is_join_identity:
@@ -137,13 +139,13 @@ class Join(BinaryOperation):
 
     def _finish_apply(self, lhs: Relation, rhs: Relation) -> Relation:
         # Docstring inherited.
+        if lhs.engine != rhs.engine:
+            raise EngineError(f"Mismatched join engines: {lhs.engine} != {rhs.engine}.")
         if self.predicate.as_trivial() is True:
             if lhs.is_join_identity:
                 return rhs
             if rhs.is_join_identity:
                 return lhs
-        if lhs.engine != rhs.engine:
-            raise EngineError(f"Mismatched join engines: {lhs.engine} != {rhs.engine}.")
         if not self.predicate.is_supported_by(lhs.engine):
             raise EngineError(f"Join predicate {self.predicate} does not support engine {lhs.engine}.")
         return super()._finish_apply(lhs, rhs)
